@@ -2,6 +2,7 @@ package main
 
 import (
 	"fmt"
+	"go/token"
 	"go/types"
 	"strings"
 
@@ -406,23 +407,154 @@ func (c *Ctx) probeContext() {
 		c.Missing("probe-carries-context", construct)
 		return
 	}
-	var sel *ssa.Select
 	var probe ssa.Instruction
 	instrsOf(cb, func(in ssa.Instruction) {
-		if s, ok := in.(*ssa.Select); ok && !s.Blocking {
-			for _, st := range s.States {
-				if strings.Contains(p.Desc(st.Chan, nil), "Context).Done(") && strings.Contains(p.Desc(st.Chan, nil), "LoadBalancer.ctx") {
-					sel = s
-				}
-			}
-		}
 		if ci, ok := in.(ssa.CallInstruction); ok && strings.HasSuffix(CalleeName(ci), "LoadBalancer).performHealthCheck") {
 			probe = in
 		}
 	})
-	ok := sel != nil && probe != nil && sel.Block().Dominates(probe.Block())
+	ok := false
+	if probe != nil {
+		instrsOf(cb, func(in ssa.Instruction) {
+			ifi, isIf := in.(*ssa.If)
+			if !isIf {
+				return
+			}
+			doneWhenTrue, isTest := c.ctxDoneCond(ifi.Cond, 0)
+			if !isTest {
+				return
+			}
+			notDone := ifi.Block().Succs[1]
+			if !doneWhenTrue {
+				notDone = ifi.Block().Succs[0]
+			}
+			if len(notDone.Preds) == 1 && notDone.Dominates(probe.Block()) {
+				ok = true
+			}
+		})
+	}
 	c.Check(ok, "probe-carries-context", construct, p.Pos(cb.Pos()),
-		"a non-blocking select on lb.ctx.Done() dominates the probe", "the probe is not preceded by a test of lb.ctx.Done(): probes queued before Stop are still sent after it")
+		"the probe is sent only on the not-cancelled edge of a test of lb.ctx (non-blocking select on Done(), Err(), or a helper wrapping one)", "the probe is not preceded by a test of lb.ctx.Done(): probes queued before Stop are still sent after it")
+}
+
+// ctxDoneCond recognises a branch condition that tests whether the balancer context is cancelled:
+// a non-blocking select on lb.ctx.Done(), lb.ctx.Err() != nil, or a bool helper wrapping either.
+// It returns whether "true" means cancelled.
+func (c *Ctx) ctxDoneCond(cond ssa.Value, depth int) (doneWhenTrue bool, ok bool) {
+	p := c.P
+	if depth > 3 {
+		return false, false
+	}
+	isCtx := func(v ssa.Value) bool {
+		return strings.Contains(p.Desc(v, nil), "LoadBalancer.ctx")
+	}
+	switch x := cond.(type) {
+	case *ssa.UnOp:
+		if x.Op == token.NOT {
+			d, ok := c.ctxDoneCond(x.X, depth)
+			return !d, ok
+		}
+	case *ssa.BinOp:
+		if x.Op != token.EQL && x.Op != token.NEQ {
+			return false, false
+		}
+		for _, pair := range [][2]ssa.Value{{x.X, x.Y}, {x.Y, x.X}} {
+			// select index compared with the Done() case
+			if ex, isEx := pair[0].(*ssa.Extract); isEx && ex.Index == 0 {
+				if sel, isSel := ex.Tuple.(*ssa.Select); isSel && !sel.Blocking {
+					if k, isK := constInt(pair[1]); isK && int(k) < len(sel.States) && k >= 0 {
+						st := sel.States[k]
+						if strings.Contains(p.Desc(st.Chan, nil), "Context).Done(") && isCtx(st.Chan) {
+							return x.Op == token.EQL, true
+						}
+					}
+				}
+			}
+			// ctx.Err() compared with nil
+			if call, isCall := pair[0].(*ssa.Call); isCall && CalleeName(call) == "(context.Context).Err" && isCtx(call.Call.Value) && isConstNil(pair[1]) {
+				return x.Op == token.NEQ, true
+			}
+			// helper() == true/false
+			if bv, isB := constBool(pair[1]); isB {
+				if d, ok := c.ctxDoneCond(pair[0], depth); ok {
+					return d == (bv == (x.Op == token.EQL)), true
+				}
+			}
+		}
+	case *ssa.Call:
+		h := StaticFn(x)
+		if h == nil || !p.IsHelios(h) || h.Blocks == nil || h.Signature.Results().Len() != 1 {
+			return false, false
+		}
+		// every `return true` lies on the cancelled edge of a context test inside h, every `return false` off it
+		var doneBlocks, liveBlocks []*ssa.BasicBlock
+		instrsOf(h, func(in ssa.Instruction) {
+			ifi, isIf := in.(*ssa.If)
+			if !isIf {
+				return
+			}
+			if d, ok := c.ctxDoneCond(ifi.Cond, depth+1); ok {
+				dn, lv := ifi.Block().Succs[0], ifi.Block().Succs[1]
+				if !d {
+					dn, lv = lv, dn
+				}
+				doneBlocks = append(doneBlocks, dn)
+				liveBlocks = append(liveBlocks, lv)
+			}
+		})
+		if len(doneBlocks) == 0 {
+			return false, false
+		}
+		within := func(bs []*ssa.BasicBlock, b *ssa.BasicBlock) bool {
+			for _, x := range bs {
+				if len(x.Preds) == 1 && x.Dominates(b) {
+					return true
+				}
+			}
+			return false
+		}
+		trueOnDone, falseOnLive, n := true, true, 0
+		instrsOf(h, func(in ssa.Instruction) {
+			r, isRet := in.(*ssa.Return)
+			if !isRet || len(r.Results) != 1 {
+				return
+			}
+			n++
+			bv, isB := constBool(r.Results[0])
+			switch {
+			case !isB:
+				trueOnDone, falseOnLive = false, false
+			case bv && !within(doneBlocks, r.Block()):
+				trueOnDone = false
+			case !bv && !within(liveBlocks, r.Block()):
+				falseOnLive = false
+			}
+		})
+		if n > 0 && trueOnDone && falseOnLive {
+			return true, true
+		}
+		// the mirrored helper (`stillRunning()`): true on the live edge
+		trueOnLive, falseOnDone := true, true
+		instrsOf(h, func(in ssa.Instruction) {
+			r, isRet := in.(*ssa.Return)
+			if !isRet || len(r.Results) != 1 {
+				return
+			}
+			bv, isB := constBool(r.Results[0])
+			switch {
+			case !isB:
+				trueOnLive, falseOnDone = false, false
+			case bv && !within(liveBlocks, r.Block()):
+				trueOnLive = false
+			case !bv && !within(doneBlocks, r.Block()):
+				falseOnDone = false
+			}
+		})
+		if n > 0 && trueOnLive && falseOnDone {
+			return false, true
+		}
+	}
+	return false, false
 }
 
 // waitGroupJoinable: C19 clause 3 (also part of C12).
@@ -697,38 +829,113 @@ func (c *Ctx) timeoutsConfigured() {
 	c.Floor("timeouts-configured", n, 5, "server/transport/dialer/client literals")
 }
 
+// nzBind binds the parameters of a helper to the arguments of the call site it is analysed for.
+type nzBind struct {
+	callee *ssa.Function
+	args   []ssa.Value
+	caller *ssa.Function
+	outer  *nzBind
+}
+
 // nonZeroDuration explains why v may be zero ("" when it provably is not, under validated config).
 func (c *Ctx) nonZeroDuration(fn *ssa.Function, v ssa.Value) string {
+	return c.nonZeroIn(fn, v, nil, 0)
+}
+
+func (c *Ctx) nonZeroIn(fn *ssa.Function, v ssa.Value, bind *nzBind, depth int) string {
 	p := c.P
 	v = stripConv(v)
+	if depth > 8 {
+		return "undecided: helper nesting too deep"
+	}
 	if k, ok := constInt(v); ok {
 		if k > 0 {
 			return ""
 		}
 		return "constant zero"
 	}
+	if prm, ok := v.(*ssa.Parameter); ok {
+		for b := bind; b != nil; b = b.outer {
+			if b.callee != prm.Parent() {
+				continue
+			}
+			for i, q := range b.callee.Params {
+				if q == prm && i < len(b.args) {
+					return c.nonZeroIn(b.caller, b.args[i], b.outer, depth+1)
+				}
+			}
+		}
+		return "undecided: cannot show that parameter " + prm.Name() + " is non-zero"
+	}
+	// a zero guard in fn on the value itself: `if x == 0 { … default … }`
+	guarded := func(x ssa.Value) bool {
+		xd := p.Desc(x, nil)
+		found := false
+		instrsOf(fn, func(in ssa.Instruction) {
+			if ifi, ok := in.(*ssa.If); ok {
+				r := p.RelOf(ifi.Cond, true, nil)
+				if r.X == xd && r.Y == "" && r.Pred == "" && !r.Neq && (r.Lo == 0 && r.Hi == 0 || r.Lo == negInf && r.Hi == 0) {
+					found = true
+				}
+			}
+		})
+		return found
+	}
+	helperResult := func(call *ssa.Call, idx int) (string, bool) {
+		h := StaticFn(call)
+		if h == nil || !p.IsHelios(h) || h.Blocks == nil || idx >= h.Signature.Results().Len() {
+			return "", false
+		}
+		nb := &nzBind{callee: h, args: call.Call.Args, caller: fn, outer: bind}
+		why := ""
+		instrsOf(h, func(in ssa.Instruction) {
+			r, ok := in.(*ssa.Return)
+			if !ok || idx >= len(r.Results) || why != "" {
+				return
+			}
+			res := stripConv(r.Results[idx])
+			// `if d == 0 { return def }; return d`: this return is only reached with d ≠ 0
+			nonZeroHere := false
+			rd := p.Desc(res, nil)
+			instrsOf(h, func(gi ssa.Instruction) {
+				ifi, ok := gi.(*ssa.If)
+				if !ok {
+					return
+				}
+				rel := p.RelOf(ifi.Cond, true, nil)
+				if rel.X != rd || rel.Y != "" || rel.Pred != "" {
+					return
+				}
+				var nz *ssa.BasicBlock
+				switch {
+				case !rel.Neq && rel.Lo == 0 && rel.Hi == 0: // x == 0
+					nz = ifi.Block().Succs[1]
+				case rel.Neq && rel.Lo == 0 && rel.Hi == 0: // x != 0
+					nz = ifi.Block().Succs[0]
+				}
+				if nz != nil && len(nz.Preds) == 1 && nz.Dominates(r.Block()) {
+					nonZeroHere = true
+				}
+			})
+			if nonZeroHere {
+				return
+			}
+			why = c.nonZeroIn(h, res, nb, depth+1)
+		})
+		return why, true
+	}
 	if ex, ok := v.(*ssa.Extract); ok {
 		if call, ok := ex.Tuple.(*ssa.Call); ok {
-			if h := StaticFn(call); h != nil && p.IsHelios(h) && h.Blocks != nil {
-				why := ""
-				instrsOf(h, func(in ssa.Instruction) {
-					if r, ok := in.(*ssa.Return); ok && ex.Index < len(r.Results) && why == "" {
-						why = c.nonZeroDuration(h, r.Results[ex.Index])
-					}
-				})
+			if why, handled := helperResult(call, ex.Index); handled {
 				return why
 			}
 		}
 	}
 	if call, ok := v.(*ssa.Call); ok {
-		if h := StaticFn(call); h != nil && p.IsHelios(h) && h.Blocks != nil && h.Signature.Results().Len() == 1 {
-			why := ""
-			instrsOf(h, func(in ssa.Instruction) {
-				if r, ok := in.(*ssa.Return); ok && why == "" {
-					why = c.nonZeroDuration(h, r.Results[0])
-				}
-			})
-			return why
+		if h := StaticFn(call); h != nil && h.Signature.Results().Len() == 1 {
+			if why, handled := helperResult(call, 0); handled {
+				return why
+			}
 		}
 	}
 	d := p.Desc(v, nil)
@@ -736,31 +943,23 @@ func (c *Ctx) nonZeroDuration(fn *ssa.Function, v ssa.Value) string {
 		return "" // validated > 0 when active checks are enabled (C18 constraint table)
 	}
 	if phi, ok := v.(*ssa.Phi); ok {
-		// zero-default guard: phi(k>0, x) where the k edge is taken on x == 0
+		// zero-default idiom: every edge is a positive default, or the value the guard `x == 0` replaced
 		hasDefault := false
-		var other ssa.Value
+		var others []ssa.Value
 		for _, e := range phi.Edges {
-			if k, ok := constInt(e); ok && k > 0 {
+			if c.nonZeroIn(fn, e, bind, depth+1) == "" {
 				hasDefault = true
 			} else {
-				other = e
+				others = append(others, e)
 			}
 		}
-		if hasDefault && other != nil {
-			od := p.Desc(other, nil)
-			guard := false
-			instrsOf(fn, func(in ssa.Instruction) {
-				if ifi, ok := in.(*ssa.If); ok {
-					r := p.RelOf(ifi.Cond, true, nil)
-					if r.X == od && r.Y == "" && r.Pred == "" && !r.Neq && (r.Lo == 0 && r.Hi == 0 || r.Lo == negInf && r.Hi == 0) {
-						guard = true
-					}
+		if hasDefault {
+			for _, o := range others {
+				if !guarded(o) {
+					return "derived from configuration (" + p.Desc(o, nil) + ") that may be 0 without a zero-default guard"
 				}
-			})
-			if guard {
-				return ""
 			}
-			return "derived from configuration (" + od + ") that may be 0 without a zero-default guard"
+			return ""
 		}
 	}
 	if strings.Contains(d, "config.TimeoutConfig") || strings.Contains(d, "fld:config.") {
